@@ -135,7 +135,77 @@ def c15(res, tier, seed):
             "trusted": KANI_TRUSTED}
 
 
+C13_QUICK = ["c13_t24b", "c13_t14_k01", "c13_t14_k02", "c13_t14_k04", "c13_t14_k05", "c13_t14_k06", "c13_t14_k08", "c13_t12_k01", "c13_t12_k04", "c13_t12_k08"]
+C13_LONG = ["c13_t14_k12", "c13_t14_k16", "c13_t14_k20", "c13_t12_k20", "c13_t24a", "c13_t19", "c13_t21", "c13_t05", "c13_t05_trunc"]
+
+
+def c13(res, tier, seed):
+    jobs = []
+    if tier == "quick":
+        for h in C13_QUICK:
+            jobs += K(h, ("std",), timeout=900)
+        for h in ("c13_t14_k04", "c13_t24b"):
+            jobs += K(h, ("none",), timeout=900)
+    else:
+        for h in C13_QUICK:
+            jobs += K(h, ALL, timeout=1800)
+        for h in C13_LONG:
+            jobs += K(h, ("std", "none"), timeout=2700)
+    run_kani_jobs(res, jobs)
+    res.assumptions += ["stub core::str::from_utf8 -> ASCII-asserting stub (its assertion is the 'always valid ASCII' clause)",
+                        "quick: text fields of 3/4/7 characters (type 24 B) and safety texts of 1..8 characters; thorough adds the 20-character "
+                        "fields (24 A, 19, 21, 5 incl. a truncated destination) and safety texts up to 20 characters; longer safety texts "
+                        "(spec maximum 156/161) are outside the bound"]
+    return {"functions_encoded": ["parsers::parse_6bit_ascii, sixbit_to_ascii, nom::multi::count / nom_noalloc::count, str::trim_start/trim_end_matches/trim_end",
+                                  "the carrying message parsers"],
+            "bounds": {"characters": "<= 8 quick, <= 20 thorough; all 64^k strings, all other payload bits symbolic", "unwind": "k+2"},
+            "technique": "Kani/CBMC: decoded string == reference 6-bit table + three explicit trim loops, byte for byte",
+            "trusted": KANI_TRUSTED}
+
+
+C01_FIX_P = ["c01_fix_t%02d" % t for t in (1, 4, 6, 7, 8, 9, 10, 11, 13, 15, 16, 17, 18, 20, 27)]
+C01_FIX_T = ["c01_fix_t%02d" % t for t in (5, 12, 14, 19, 21, 24)]
+C01_LEN_P = ["c01_len_t%02d" % t for t in (1, 4, 6, 7, 8, 9, 10, 11, 13, 15, 16, 17, 18, 20, 27)]
+C01_LEN_T = ["c01_len_t%02d" % t for t in (5, 12, 14, 19, 21, 24)]
+C01_LEN_CHEAP = ["c01_len_t%02d" % t for t in (6, 8, 10, 12, 14, 16, 27)]
+
+
+def c01_kani_jobs(tier):
+    jobs = []
+    if tier == "quick":
+        jobs += K("c01_unarmor_n16", ALL, timeout=600)
+        for h in C01_FIX_P + C01_FIX_T:
+            jobs += K(h, ("std",), timeout=900)
+        for h in ("c01_fix_t05", "c01_fix_t07", "c01_fix_t15", "c01_fix_t20", "c01_fix_t06", "c01_fix_t17", "c01_fix_t24"):
+            jobs += K(h, ("none",), timeout=900)   # the types with heapless containers
+        for h in ("c01_len_t14", "c01_len_t10", "c01_len_t08"):
+            jobs += K(h, ("std",), timeout=900)
+        jobs += K("c01_text_t14_k04", ("std",), timeout=900)
+        jobs += K("c01_text_t14_k21", ("none",), timeout=900) + K("c01_text_t12_k21", ("none",), timeout=900)
+        jobs += K("c01_long_t14", ("std", "none"), timeout=900)
+    else:
+        jobs += K("c01_unarmor_n16", ALL, timeout=900) + K("c01_unarmor_n40", ALL, timeout=2700)
+        for h in C01_FIX_P + C01_FIX_T + C01_LEN_P + C01_LEN_T + ["c01_long_t14", "c01_long_t12"]:
+            jobs += K(h, ALL, timeout=2700)
+        jobs += K("c01_text_t14_k04", ALL, timeout=2700)
+        jobs += K("c01_text_t14_k21", ALL, timeout=2700, mem_gb=24) + K("c01_text_t12_k21", ("none",), timeout=2700)
+    return jobs
+
+
+def c01(res, tier, seed):
+    run_kani_jobs(res, c01_kani_jobs(tier))
+    res.assumptions += ["payload layer: per message type the exact specification length (quick) and a symbolic length 0..=spec max + 2 bytes (thorough; "
+                        "quick for the cheap types), all bits symbolic including the type bits", SKIPTEXT_NOTE +
+                        "; the real text decoder is run on safety texts of 4 and 21 characters (21 > the no-allocator capacity)",
+                        "unarmor: n <= 16 characters (thorough 40), fill 0..=5",
+                        "the dispatcher messages::parse is not run under Kani (21-variant result type, > 19 min); its own control flow is covered by C09's MIR query"]
+    return {"functions_encoded": PAYLOAD_FN + ["messages::unarmor", "nom_noalloc::count / many_m_n (no-alloc)"],
+            "bounds": {"payload": "spec length (quick) / symbolic length up to spec max + 2 (thorough)", "unarmor_n": 16 if tier == "quick" else 40, "unwind": 7},
+            "technique": "Kani/CBMC built-in checks (arithmetic overflow, shift, index/slice bounds, unwrap/expect/unreachable/assert panics) over arbitrary input",
+            "trusted": KANI_TRUSTED}
+
+
 c09k = simple(C09_PLAIN, C09_TEXT, PAYLOAD_FN + ["parsers::message_type"], {"payload": "spec length per type, all bits symbolic incl. the type bits", "unwind": 6},
               "Kani/CBMC leaves of C09", [])
 
-CHECKS = {"C03": c03, "C04": c04, "C10": c10, "C11": c11, "C12": c12, "C16": c16, "C14": c14, "C15": c15, "C09": c09k}
+CHECKS = {"C03": c03, "C04": c04, "C10": c10, "C11": c11, "C12": c12, "C16": c16, "C14": c14, "C01": c01, "C13": c13, "C15": c15, "C09": c09k}
